@@ -86,7 +86,44 @@ def d1_arbitration(facts, rep):
                            '%s.load(%s) outside the pool lock' % (rmem, oname(rop['order'])), ln=rop['ln'], key_extra=str(rop['ln']))
             if n_arb == 0:
                 raise AnalysisBroken('%s: no %s read is reachable from a %s write' % (fname, rmem, wmem))
-    rep.floor('D1', 4, 'fence-pair and order obligations in get_task/steal_task')
+    d1_signed_arbitration(facts, rep)
+    rep.floor('D1', 6, 'fence-pair, order and signedness obligations in get_task/steal_task')
+
+
+def d1_signed_arbitration(facts, rep):
+    """K14: the value an arbitration RMW returns (T = --tail, H = ++head) can be one step outside the deque, in particular
+    (size_t)-1 for an empty pool at index 0.  Every ordering comparison that uses such a value directly (or through the
+    local it was stored in) must be evaluated in a signed type, otherwise `head > T` is false for T == -1 and the owner /
+    thief reads a slot outside the published range."""
+    n = 0
+    for fname in (R1 + 'arena_slot::get_task', R1 + 'arena_slot::steal_task'):
+        for fn in facts.get(fname):
+            defs = Defs(fn)
+            rmw_nodes = set(op['s'] for _, op in atomic_ops(fn) if op['kind'] == 'rmw' and last_member(fn, op['obj']) in ('head', 'tail'))
+            rmw_vars = set()
+            for (vid, dn), val in defs.value_of.items():
+                if val is not None and (fn.subtree(val) & rmw_nodes):
+                    rmw_vars.add(vid)
+
+            def uses_rmw(s):
+                for x in fn.subtree(s):
+                    if x in rmw_nodes:
+                        return True
+                    nd = fn.nodes[x]
+                    if nd.get('k') == 'var' and nd.get('v') in rmw_vars:
+                        return True
+                return False
+            for pos, s, node in fn.stmt_elems(('binop',)):
+                if node['op'] not in ('<', '<=', '>', '>=') or not (uses_rmw(node['l']) or uses_rmw(node['r'])):
+                    continue
+                ot = node.get('ot')
+                n += 1
+                rep.ob('D1', 'K14', fn, 'the arbitration comparison at line %s is evaluated in a signed type' % node['ln'],
+                       bool(ot) and ot[1] == 1,
+                       'compared as unsigned: an index of -1 (empty pool, tail decremented below 0) reads as the largest value and the '
+                       'arbitration lets the owner / thief take a slot outside the deque', ln=node['ln'], key_extra='sg%s' % node['ln'])
+    if n < 3:
+        raise AnalysisBroken('D1: only %d arbitration comparisons on RMW results found (expected 3)' % n)
 
 
 def d2_pool_lock(facts, rep):
